@@ -315,7 +315,7 @@ func buildOverlayRAC(root, pkgDir string) (map[string][]byte, error) {
 			loops := collectLoops(fd.Body)
 			if len(c.LoopInv) > 0 {
 				for n, l := range loops {
-					if _, isFor := l.(*ast.ForStmt); isFor {
+					if _, isLoop := l.(ast.Stmt); isLoop {
 						if lc := c.Loops[n+1]; lc == nil {
 							c.Loops[n+1] = &LoopContract{Invariants: c.LoopInv, Decreases: c.LoopDec, merged: true}
 						} else if !lc.merged {
